@@ -36,7 +36,7 @@ class C12(PropertyCheck):
         "histories (scribble / rebuild operations) and configuration histories (conf operations)"
     )
     # loop ties (DESIGN §12): regenerated from the source on every run, tie theorems proved for all sizes
-    loop_tie_modules = ["LoopsEntry", "LoopsRadial"]
+    loop_tie_modules = ["LoopsEntry", "LoopsRadial", "LoopsEntry2"]
     modelled_functions = [
         "autoarray/geometry/geometry_util.py:central_pixel_coordinates_2d_from",
         "autoarray/geometry/geometry_util.py:central_scaled_coordinate_2d_from",
